@@ -7,7 +7,8 @@ IMPORTS = ["Base", "Harness", "Cigar", "SamModel", "Check_C01"]
 CHECK_FN = "check_C01"
 RULE = ("random references; per query 1-3 primary/supplementary records at random POS with random CIGARs over all nine "
         "operators (leading/trailing D and N, adjacent I/D, H/S clips, P), aligned bases drawn from one per-query sequence "
-        "so overlaps agree, or deliberately conflicting; unmapped (0x4) and secondary (0x100) records interleaved; "
+        "so overlaps agree, or deliberately conflicting; a fifth of the queries are 3-5 record 'sandwiches' (two records "
+        "disagreeing on a stretch with records that delete/skip/miss it before, between and after them in file order); unmapped (0x4) and secondary (0x100) records interleaved; "
         "options pad x window x wrap x threads. The implementation's bytes are compared with (i) an oracle written from "
         "the statement (position-wise projection, base > deletion > nothing, conflict -> N, flank '-' / internal 'N') and "
         "(ii) the Coq model. Non-trivial: a block has >=2 records or a CIGAR with >=3 operator kinds. Distinct by content.")
@@ -55,7 +56,10 @@ def generate(ctx):
         for qi in range(rng.randint(1, 4)):
             if rng.random() < 0.3:
                 recs.append(samgen.noise_record(rng, ref, "noise%d" % qi if rng.random() < 0.5 else "q%d" % qi))
-            q = samgen.make_query(rng, ref, "q%d" % qi, conflict=rng.random() < 0.3)
+            if rng.random() < 0.2:
+                q = samgen.make_query_sandwich(rng, ref, "q%d" % qi)
+            else:
+                q = samgen.make_query(rng, ref, "q%d" % qi, conflict=rng.random() < 0.3)
             for k, r in enumerate(q):
                 recs.append(r)
                 if rng.random() < 0.15:          # noise inside a block, under the block's own name or another
